@@ -508,14 +508,24 @@ def check_definitions(ctx, U):
             continue
         n += 1
         try:
-            t = s.value('ret')
-            if I.equal(t, expect):
-                ctx.ok(R, inst, '%s == %s' % (sp.expand(t), txt), RKMATH)
-            elif I.opaque_atoms(t) or unknown_atoms(t, ()):
-                ctx.undecided(R, inst, 'result %s contains atoms outside the polynomial fragment' % t, RKMATH)
+            cs_ = guarded(s)            # every path / select case must equal the definition under its guard
+            bad_ = [(g_, t_) for g_, t_ in cs_ if not (I.equal(t_, expect) or I.equal_under(list(g_), t_, expect))]
+            if not bad_:
+                ctx.ok(R, inst, '%s == %s%s' % (sp.expand(cs_[-1][1]), txt, ' (%d cases)' % len(cs_) if len(cs_) > 1 else ''), RKMATH)
+            elif any(I.opaque_atoms(t_) or unknown_atoms(t_, ()) for _, t_ in bad_):
+                ctx.undecided(R, inst, 'result %s contains atoms outside the polynomial fragment' % bad_[0][1], RKMATH)
             else:
-                ctx.violation(R, inst, 'computes %s, definition is %s (difference %s)' % (sp.expand(t), txt, sp.expand(t - expect)),
-                              RKMATH, key='%s|%s|%s|definition' % (R, RKMATH, what.split('<')[0]))
+                g_, t_ = bad_[0]
+                if g_:
+                    ctx.violation(R, inst, 'in the case `%s` the result is %s, but the definition %s gives %s there (difference %s): the '
+                                  'function does not follow its definition for those arguments%s'
+                                  % (show_guard(g_), sp.expand(t_), txt, sp.expand(expect), sp.expand(t_ - expect),
+                                     ' - the factor is effectively clamped, so extrapolation (f < 0 or f > 1) returns an end point'
+                                     if 'lerp' in what and t_ in (a, b) else ''),
+                                  RKMATH, key='%s|%s|%s|definition' % (R, RKMATH, what.split('<')[0]))
+                else:
+                    ctx.violation(R, inst, 'computes %s, definition is %s (difference %s)' % (sp.expand(t_), txt, sp.expand(t_ - expect)),
+                                  RKMATH, key='%s|%s|%s|definition' % (R, RKMATH, what.split('<')[0]))
         except Undecided as e:
             ctx.undecided(R, inst, str(e), RKMATH)
     # ---- lerp: element types other than float (the definition converts each operand to float before any arithmetic)
@@ -526,11 +536,24 @@ def check_definitions(ctx, U):
             continue
         n += 1
         try:
-            t = s.value('ret')
-            inner = t.args[0] if I.is_app(t, cast) else None
-            pre = [z for z in I.all_atoms(t) if z.func.__name__ in ('uitofp_32', 'sitofp_32', 'zext32_64', 'sext32_64') and not z.args[0].is_Symbol]
-            if inner is not None and I.equal(inner, (1 - f) * a + f * b):
-                ctx.ok(R, inst, '(T)((1-f)*float(a) + f*float(b))', RKMATH)
+            cs_ = guarded(s)
+            defn = (1 - f) * a + f * b
+            # a case may return an operand itself (the conversion of an integral operand to float and back is the identity)
+            inner_of = lambda t_: t_.args[0] if I.is_app(t_, cast) else (t_ if t_ in (a, b) else None)
+            good_ = all(inner_of(t_) is not None and (I.equal(inner_of(t_), defn) or I.equal_under(list(g_), inner_of(t_), defn)) for g_, t_ in cs_)
+            t = cs_[-1][1]
+            inner = inner_of(t)
+            pre = [z for _, t_ in cs_ for z in I.all_atoms(t_)
+                   if z.func.__name__ in ('uitofp_32', 'sitofp_32', 'zext32_64', 'sext32_64') and not z.args[0].is_Symbol]
+            wrong_ = [(g_, t_) for g_, t_ in cs_ if inner_of(t_) is not None and not unknown_atoms(t_, (cast,)) and
+                      not (I.equal(inner_of(t_), defn) or I.equal_under(list(g_), inner_of(t_), defn))]
+            if good_:
+                ctx.ok(R, inst, '(T)((1-f)*float(a) + f*float(b))%s' % (' (%d cases)' % len(cs_) if len(cs_) > 1 else ''), RKMATH)
+            elif wrong_ and wrong_[0][0] and not pre:
+                g_, t_ = wrong_[0]
+                ctx.violation(R, inst, 'in the case `%s` the result is %s, but the definition gives %s((1-f)*a + f*b) there%s'
+                              % (show_guard(g_), t_, cast, ' - the factor is effectively clamped, so extrapolation returns an end point'
+                                 if t_ in (a, b) else ''), RKMATH, key='%s|%s|lerp|definition' % (R, RKMATH))
             elif pre:
                 ctx.violation(R, inst, 'the operands are combined in the element type before the conversion to float: %s is evaluated in %s, '
                               'where it wraps around (for unsigned T whenever b < a); the definition (1-f)*a + f*b converts a and b first'
@@ -1326,6 +1349,82 @@ def check_purity_ast(ctx, simd):
 
 
 # ============================================================================================
+#  R-C07-1 / R-C07-2 (floating-point environment)
+# ============================================================================================
+FPENV_UNIT = 'rkcommon/tasking/detail/tasking_system_init.cpp'
+
+
+def check_fp_environment(ctx):
+    """The bounds above hold with gradual underflow: the SIMD rsqrt forms a * -0.5, which is denormal for a in [2^-126, 2^-125)
+    (R-C07-1 accounts for it with a larger rounding term), and rcp_safe tests the sign of denormal arguments.  With MXCSR
+    flush-to-zero / denormals-are-zero these fail (50 % error on that binade, negative denormals read as +0).  The library may set
+    these bits only when the application asks for it: initTaskingSystem's flushDenormals defaults to false and every write of
+    MXCSR is under that parameter."""
+    R = 'R-C07-1'
+    inst = 'floating-point environment set up by initTaskingSystem'
+    loc0 = 'rkcommon/tasking/tasking_system_init.h'
+    key = '%s|%s|initTaskingSystem|' % (R, loc0)
+    tu = ctx.front.parse(FPENV_UNIT, 'TBB')
+    fns = [f_ for f_ in tu.functions.values() if f_['q'] == 'rkcommon::tasking::initTaskingSystem' and not f_['dep']]
+    if not fns:
+        ctx.broken('%s: rkcommon::tasking::initTaskingSystem not found in %s' % (R, FPENV_UNIT))
+        return 0
+    fn = fns[0]
+    flags = [p_ for p_ in fn['params'] if p_['ct'] == 'bool']
+    if len(flags) != 1:
+        ctx.undecided(R, inst, 'cannot identify the flush-denormals parameter', tu.fn_loc(fn))
+        return 1
+    pname = flags[0]['name']
+    # default argument on any declaration
+    defaults = []
+    for nd in tu.nodes.values():
+        if nd.get('kind') == 'FunctionDecl' and nd.get('name') == 'initTaskingSystem':
+            bools = [k_ for k_ in nd.get('inner', []) if isinstance(k_, dict) and k_.get('kind') == 'ParmVarDecl' and
+                     k_.get('type', {}).get('qualType') == 'bool']
+            for k_ in bools:
+                for x_ in tu.walk(k_):
+                    if x_.get('kind') == 'CXXBoolLiteralExpr':
+                        defaults.append(bool(x_.get('value')))
+    probs, und = [], []
+    if any(defaults):
+        probs.append(('flush-denormals-default', 'the parameter `%s` defaults to true: a plain initTaskingSystem() switches MXCSR to '
+                      'flush-to-zero / denormals-are-zero for the calling thread, and then (SIMD build) rsqrt(x) for x in [2^-126, 2^-125) loses '
+                      'its Newton correction because the intermediate x * -0.5 is a denormal that is flushed to 0 (result 1.5 * estimate, 50 %% '
+                      'off instead of within 2^-20), and rcp_safe reads a negative denormal as +0 and returns a positive value' % pname))
+    elif not defaults:
+        und.append('no default argument found for `%s`' % pname)
+    # every write of MXCSR inside the function is guarded by the parameter
+    for x in tu.walk(tu.body(fn)):
+        if x.get('kind') == 'CallExpr' and 'id' in x and tu.sd(x).get('q') in ('_mm_setcsr', '__builtin_ia32_ldmxcsr'):
+            guarded_ = False
+            p_ = x
+            for _ in range(30):
+                q_ = tu.par(p_)
+                if q_ is None:
+                    break
+                if q_.get('kind') == 'IfStmt':
+                    parts_ = [y for y in q_.get('inner', []) if isinstance(y, dict) and y.get('kind')]
+                    c_ = tu.strip(parts_[0], casts=True) if parts_ else None
+                    in_then = len(parts_) > 1 and any(z is p_ or z.get('id') == p_.get('id') for z in [parts_[1]])
+                    if c_ is not None and c_.get('kind') == 'BinaryOperator' and c_.get('opcode') in ('==', '!='):
+                        l_, r_ = (tu.strip(k_, casts=True) for k_ in tu.kids(c_))
+                        lit_ = r_ if l_.get('kind') == 'DeclRefExpr' else l_
+                        ref_ = l_ if l_.get('kind') == 'DeclRefExpr' else r_
+                        if lit_.get('kind') == 'CXXBoolLiteralExpr' and bool(lit_.get('value')) == (c_.get('opcode') == '=='):
+                            c_ = ref_
+                    if in_then and c_ is not None and c_.get('kind') == 'DeclRefExpr' and c_.get('referencedDecl', {}).get('name') == pname:
+                        guarded_ = True
+                        break
+                p_ = q_
+            if not guarded_:
+                probs.append(('flush-unconditional', 'MXCSR is written at %s outside `if (%s)`: flush-to-zero / denormals-are-zero is switched on '
+                              'whether or not the application asked for it' % (tu.loc(x), pname)))
+    report(ctx, R, inst, loc0, key, probs, und,
+           'MXCSR (FTZ / DAZ) is only written under `if (%s)` and the parameter defaults to false: gradual underflow stays on unless requested' % pname)
+    return 1
+
+
+# ============================================================================================
 def run(ctx):
     ctx.describe('R-C07-1', 'rcp/rsqrt: relative error is a function of the estimate error and rounding errors alone, bounded < 2^-20')
     ctx.describe('R-C07-2', 'rcp_safe applies rcp to x for |x| >= min_normal and to +-min_normal with the sign of x otherwise')
@@ -1336,6 +1435,7 @@ def run(ctx):
                '(2^-53 for double): no intermediate under- or overflows, which is what the stated range 2^-126 <= |x| < 2^126 ensures')
     ctx.assume('_mm_rcp_ss / _mm_rsqrt_ss have relative error at most 1.5*2^-12 (Intel SDM)')
     ctx.assume('comparisons are read without NaN operands; -0.0 is not distinguished from +0.0')
+    ctx.assume('gradual underflow (MXCSR FTZ / DAZ clear) unless the application passes flushDenormals = true to initTaskingSystem')
     ctx.assume('sqrt / sqrtf are correctly rounded; pow, round, fabs are the C library functions (not analysed)')
     counts = {}
     units = [Unit(ctx, True), Unit(ctx, False)]
@@ -1352,6 +1452,7 @@ def run(ctx):
         for rule, fn in (('R-C07-1', check_refinement), ('R-C07-2', check_rcp_safe), ('R-C07-3', check_definitions),
                          ('R-C07-4', check_packing), ('R-C07-5', check_distributions)):
             counts[rule] = counts.get(rule, 0) + fn(ctx, U)
+    check_fp_environment(ctx)
     npure = check_purity_ast(ctx, True)
     ctx.floor('R-C07-5', npure, 5, 'distribution constructors / call operators instantiated by the driver (AST purity)')
     ctx.floor('R-C07-1', counts['R-C07-1'], 8, 'rcp/rsqrt x float/double x SIMD/NO_SIMD')
